@@ -48,6 +48,10 @@ var propConfigs = map[string]propConfig{
 	"C16": {},
 	"C02": {Gen: true, Bounded: []boundedCheck{{Name: "independent-parse", Run: "TestBoundedC02", Module: true,
 		Bound: "two struct shapes (Rec: required/optional/repeated columns of every physical type and one repeated group; Deep: groups nested three levels, the same group name under two parents, a repeated group inside a repeated group, fully required nesting), 11 Add/Write histories (Rec) and 6 batch partitions (Deep), page sizes 1,2,3,4,5,8,1000, three codecs: every file parsed by an independent checker (schema tree walked by num_children against the expected leaves with path, type, converted type and repetition; chunks one to one with the leaves in order; offsets contiguous from byte 4 to the footer; every page decompressed, level sections decoded with an own RLE/bit-packing decoder, value sections measured by type; header sizes, value counts, chunk totals, row counts, records per page <= page size, pages starting at record boundaries; footer length word and both magics)"}}},
+	"C04": {Bounded: []boundedCheck{{Name: "foreign-encodings", Run: "TestBoundedC04", Module: true,
+		Bound: "60 files (1..700 records of the Rec shape, 1-2 row groups, written with each codec and page sizes 1/3/8/1000) re-encoded by an independent rewriter into another legal encoding of the same content (seeded random: RLE runs of any length >= 1, bit-packed runs of any group count incl. > 63 groups with multi-byte headers, padding bits of the last group set to 1, pages split per column at arbitrary record boundaries, a codec per column, statistics/created_by present or absent); each rewritten file is first accepted by the independent checker and decoded back to the same columns, then read with the generated reader and compared record by record"},
+		{Name: "level-decoder-foreign-encodings", PkgRel: "internal/rle", File: "replay/rle_bounded_test.go.txt", Run: "TestBoundedC07",
+			Bound: "the library's level decoder against an independent specification decoder on foreign legal encodings (bound as stated for C07)"}}},
 	"C06": {Gen: true, Bounded: []boundedCheck{{Name: "history-enumeration", Run: "TestBoundedC06", Module: true,
 		Bound: "every history over {Add, Write} of length <= 7 (gzip: <= 5) ended by Close, page sizes 1..3, three codecs, plus 7 longer shapes (page-size multiples followed by empty Writes, records pending at Close) at page sizes 1..4: footer row groups/NumRows/offsets/sizes parsed independently and compared with a list-of-batches model, every chunk walked page by page, records read back and compared, files with and without empty Writes compared byte for byte"}}},
 	"C13": {Gen: true, Bounded: []boundedCheck{{Name: "race-detector", Run: "TestBoundedC13", Module: true, Race: true,
